@@ -43,7 +43,7 @@ func blsOracle(k cell, o *out, done []uint16, members []uint16, outcome string, 
 		}
 		signers[id] = sg
 	}
-	if strings.HasPrefix(k.Strategy, "S10") {
+	if strings.HasPrefix(k.Strategy, "S10") || strings.HasPrefix(k.Strategy, "D-recommit") {
 		var pp bls.PublicParams
 		if _, err := asn1.Unmarshal(pk0, &pp); err == nil && bytes.Equal(pp.ThresholdPK, attackerKey().Bytes()) {
 			bad("commitment-binds", "c05-adaptive-key-accepted", fmt.Sprintf("honest parties %v completed with a threshold key chosen by the deviator after it saw their public keys (its commitment did not bind it): the deviator alone can sign", done))
